@@ -5,7 +5,7 @@
 From Coq Require Import List ZArith Bool.
 From SVC Require Import Base.AMap Base.Res Base.Dec Model.Types Model.Pricing
   Model.Handlers Model.EndBlock Model.Step Proofs.Inv Proofs.BankLemmas Proofs.StepSpecs_deposit
-  Proofs.TraceLemmas Proofs.TraceSettle Proofs.DecProofs Proofs.GapC02 Proofs.GapC02b Proofs.GapC03 Proofs.GapC04.
+  Proofs.TraceLemmas Proofs.TraceSettle Proofs.DecProofs Proofs.GapC02 Proofs.GapC02b Proofs.GapC03 Proofs.GapC04 Proofs.GapC02c.
 Import ListNotations.
 Open Scope Z_scope.
 
@@ -257,3 +257,21 @@ Theorem C04_expire_one_events : forall cfg s c rc,
             /\ exists amt, In (EvSlash r (c_svc rc, r_prov q) amt) (log (expire_one cfg s c))).
 Proof. exact GapC04.expire_one_events. Qed.
 Print Assumptions C04_expire_one_events.
+
+(* EndBlock, every event about a request: a slash appended by EndBlock belongs to a request that
+   was stored, still active and at its expiry height when the block ended, whose context is NOT
+   in super mode, and it names the binding (service of that context, provider of that request);
+   EndBlock appends no respond / earn / tax event *)
+Theorem C04_endblock_request_events : forall cfg s dt,
+  wf_cfg cfg -> Reach cfg s -> wf_op s (OEndBlock dt) ->
+  exists d, log (end_block cfg s dt) = d ++ log s
+    /\ forall e r, In e d -> ev_rid e = Some r ->
+         (exists p c f, e = EvIssue r p c f /\ rid_height r = height s)
+         \/ (exists q rc, get r (reqs s) = Some q /\ r_active q = true /\ r_exp q = height s
+                /\ get (rid_ctx r) (ctxs s) = Some rc
+                /\ (e = EvExpire r
+                    \/ (c_super rc = false
+                        /\ (e = EvRefund r (c_cons rc) (r_fee q)
+                            \/ exists amt, e = EvSlash r (c_svc rc, r_prov q) amt)))).
+Proof. exact GapC02c.endblock_request_events. Qed.
+Print Assumptions C04_endblock_request_events.
